@@ -30,11 +30,12 @@ Definition tables_with (sorted:bool) (set_is_array:bool) (repaired:bool) : table
   t_is_primitive := ["double"; "int64"; "float64"; "string"; "bool"; "date"; "datetime"];
   t_bare_status_kept := repaired;
   t_responses_always := repaired;
-  t_content_guarded := repaired
+  t_content_guarded := false
 |}.
 
 (* the repaired source (fixes C19-3: sorts; C12-1: sets are arrays; C12-3 responses always present; C12-4 `return 404`
-   keeps its status; C12-5 no content without a payload type) and the source as it was found *)
+   keeps its status) and the source as it was found.  A response without payload type is exported with a media type that
+   has no schema (t_content_guarded = false): valid, and read back by the importer importer.Factory selects. *)
 Definition fixed3 : tables3 := tables_with true true true.
 Definition found3 : tables3 := tables_with false false false.
 
